@@ -333,6 +333,8 @@ Access(r, op, i) ==
 (***************************************************************************)
 (* Constructors and conversions.                                           *)
 (***************************************************************************)
+\* a local buffer goes out of scope during unwinding: Drop -> clear()
+DropLocal(r, f) == [Clear(r, f) EXCEPT !.gone = TRUE]
 \* From<[T; M]>: lib.rs:2042-2077.  Pinned: the prefix is dropped in place while the array is still
 \* owned by the frame, so a panicking destructor makes the unwinder drop the whole array again (F4).
 FromArray(r, arr, f) ==
@@ -341,10 +343,11 @@ FromArray(r, arr, f) ==
         sl == [k \in DOMAIN r.slots |-> IF k < sz THEN arr[m - sz + k + 1] ELSE r.slots[k]]
         r1 == DropMany(r, SubSeq(arr, 1, m - sz), f)
     IN IF r1.unw
-       THEN (IF Pinned THEN [DropMany(r1, arr, f) EXCEPT !.gone = TRUE] ELSE [r1 EXCEPT !.gone = TRUE])
+       THEN (IF Pinned THEN [DropMany(r1, arr, f) EXCEPT !.gone = TRUE]
+             \* repaired: the array is ManuallyDrop and the buffer already owns the last `sz` elements;
+             \* unwinding drops the buffer
+             ELSE DropLocal([r1 EXCEPT !.slots = sl, !.start = 0, !.size = sz], f))
        ELSE [r1 EXCEPT !.slots = sl, !.start = 0, !.size = sz]
-\* a local buffer goes out of scope during unwinding: Drop -> clear()
-DropLocal(r, f) == [Clear(r, f) EXCEPT !.gone = TRUE]
 
 (***************************************************************************)
 (* Drain: drain.rs.                                                        *)
